@@ -164,7 +164,7 @@ Lemma step_down sc w e w' m : step sc w e w' -> Down m w -> starts m e = false -
   Down m w' /\ no_run m (e_items e) /\
   (forall ev, e_kind e = KLoop ev -> forallb (fun i => negb (of_mod m i)) (e_items e) = true).
 Proof.
-  intros Hs Hd Hst. destruct Hs as [stage m1 w Hfresh|w|w t ev f Hf].
+  intros Hs Hd Hst. destruct Hs as [stage m1 w Hfresh Hactive|w|w t ev f Hf].
   - (* start-up stage *)
     unfold start_rec in *. cbn [fst snd e_items e_kind] in *. split; [|split; [|discriminate]].
     + destruct (N.eq_dec m1 m) as [->|Hn].
@@ -213,7 +213,7 @@ Qed.
 
 Lemma step_resets sc w e w' m : step sc w e w' -> resets m e = true -> Down m w'.
 Proof.
-  intros Hs Hr. unfold resets in Hr. destruct Hs as [stage m1 w Hfresh|w|w t ev f Hf].
+  intros Hs Hr. unfold resets in Hr. destruct Hs as [stage m1 w Hfresh Hactive|w|w t ev f Hf].
   - unfold start_rec in *. cbn [fst snd e_items] in *.
     destruct (around_resets sc 0 m1 (start_cb sc stage m1) w m (start_cb_ok _ _ _ _ _) Hr) as [-> H]. exact H.
   - discriminate.
